@@ -1,6 +1,11 @@
+import os, sys
+sys.path.insert(0, os.path.dirname(os.path.dirname(os.path.abspath(__file__))))
+from srcgen import regen_src  # pre-build generator: pure Go functions -> Gen/SrcPure.v
+
 PROP = {
     "confirm_scenarios": ['enforced'],
-    "coq": ["C16", "C16b"],
+    "pre": [regen_src],
+    "coq": ["C16", "C16b", "C02t"],
     "exhaustive": False,
     "rule": "NewClient: the six schemes x 11 targets x all 2^7 subsets of optional fields (speed, data bits, parity, stop bits, "
             "timeout, certificate, CA pool) zero/non-zero with boundary values (incl. negative and extreme durations, 2^64-1); "
@@ -25,7 +30,7 @@ PROP = {
 }
 
 CLAIM = {
-    "text": "Coq theorems over ALL URL byte strings and all values of the optional fields: NewClient succeeds iff the text before the FIRST "
+    "text": "Source level (C02t): the request construction and reply validation methods of client.go are translated from the Go source on every run and proved, with the transport as an arbitrary oracle, to return what the model's client_request / unit_check / client_validate say (38 theorems; on the model's own MBAP and RTU transports this is client_call). Coq theorems over ALL URL byte strings and all values of the optional fields: NewClient succeeds iff the text before the FIRST "
             "'://' is exactly one of tcp, tcp+tls, udp, rtu, rtuovertcp, rtuoverudp (and certificate + CA pool are present for tcp+tls), "
             "otherwise it returns the configuration error; on success the effective configuration is the documented table (1 s, 300 ms for rtu; "
             "19200 bps; 8 data bits; 2 stop bits without parity, 1 with; caller values kept; unit 1, big endian, high word first); the "
